@@ -152,8 +152,17 @@ class Machine(object):
             return ("p", "rip", i.addr)
         total = disp or 0
         tag = None
+        a32 = False
         for (r, k) in ((base, 1), (index, scale or 1)):
             if not r:
+                continue
+            if WIDTH.get(r) == 32:
+                # address-size override (lea r32, [r32 + disp]): 32-bit arithmetic on known integers only
+                v = self.get(r)
+                if not isinstance(v, int):
+                    return None
+                a32 = True
+                total += v * k
                 continue
             v = self.get(r) if WIDTH.get(r) == 64 else None
             if v is None:
@@ -165,6 +174,10 @@ class Machine(object):
                 total += v[2]
             else:
                 total += (v if v < (1 << 63) else v - (1 << 64)) * k
+        if a32:
+            if tag is not None:
+                return None
+            return ("abs", total & 0xFFFFFFFF)
         if tag is None:
             return ("abs", total & M64)
         return ("p", tag, total)
@@ -172,6 +185,15 @@ class Machine(object):
     def load(self, i, a, size):
         if a is None:
             return None
+        if a[0] == "p" and a[1] != "sp" and not a[1].startswith(("fr", "data:")):
+            # a scalar field of a caller's object that this call has already written (e.g. the GCM context's
+            # partial_block_length, stored and read back within one update) holds what was stored, not the value
+            # the call was entered with
+            if size == 8 and (a[1], a[2]) in self.stack:
+                return self.stack[(a[1], a[2])]
+            for k in self.stack:
+                if k[0] == a[1] and k[1] < a[2] + size and a[2] < k[1] + 8:
+                    return None
         if self.mem_hook is not None:
             h = self.mem_hook(i, a, size)
             if h is not None:
@@ -197,6 +219,14 @@ class Machine(object):
                     del self.stack[k]
             if size == 8:
                 self.stack[(a[1], a[2])] = v
+        elif a[0] == "p" and a[1] != "rip" and not a[1].startswith("data:"):
+            for k in list(self.stack):
+                if k[0] == a[1] and k[1] < a[2] + size and a[2] < k[1] + 8:
+                    self.stack[k] = None
+            if size == 8:
+                self.stack[(a[1], a[2])] = v
+            elif size < 8:
+                self.stack[(a[1], a[2] & ~7)] = None
 
     def record(self, i, a, size, rw):
         if a is not None and a[0] == "p" and a[1] not in ("sp", "rip") and not a[1].startswith(("fr", "data:")):
@@ -485,20 +515,29 @@ class Machine(object):
         return (blk, tuple(sorted((k, v) for k, v in self.regs.items() if v is not None)),
                 tuple(sorted(self.flags.items())) if self.flags else None, tuple(sorted(self.stack.items())), self.fr, tuple(sorted((k, v) for k, v in self.kregs.items() if v is not None)))
 
+    def snap(self):
+        return (dict(self.regs), self.flags, dict(self.stack), self.fr, dict(self.kregs))
+
+    def restore(self, t):
+        self.regs, self.flags, self.stack, self.fr, self.kregs = t
+
+    def on_ret(self, i):
+        pass
+
     def run(self, max_forks=256):
         """Follow the length-determined path.  A conditional branch whose flags come from data (e.g. a counter byte of
         the IV) is taken both ways; states are memoised per block, so paths that rejoin with the same known values
         are followed once.  More than max_forks undecided branches stop the run (not judged)."""
         f = self.f
         res = self.res
-        work = [(f.entry, dict(self.regs), self.flags, dict(self.stack), self.fr, dict(self.kregs))]
+        work = [(f.entry, self.snap())]
         seen = set()
         forks = 0
         nret = 0
         try:
             while work:
-                blk, regs, flags, stack, fr, kr = work.pop()
-                self.regs, self.flags, self.stack, self.fr, self.kregs = regs, flags, stack, fr, kr
+                blk, snap_ = work.pop()
+                self.restore(snap_)
                 while True:
                     k = self._key(blk)
                     if k in seen:
@@ -514,6 +553,7 @@ class Machine(object):
                         if res.steps > self.budget:
                             raise Stop("step budget exhausted")
                         if i.is_ret():
+                            self.on_ret(i)
                             nret += 1
                             done = True
                             break
@@ -531,7 +571,7 @@ class Machine(object):
                                 forks += 1
                                 if forks > max_forks:
                                     raise Stop("more than %d branches depend on values the length skeleton does not determine (last: `%s` at %s)" % (max_forks, i.text.strip(), f.obj.line_of(f.sec, i.addr)))
-                                work.append((i.next, dict(self.regs), self.flags, dict(self.stack), self.fr, dict(self.kregs)))
+                                work.append((i.next, self.snap()))
                                 nxt = t
                             else:
                                 nxt = t if c else i.next
